@@ -611,3 +611,119 @@ Proof.
       cbn [In] in Hnew. intuition discriminate.
 Qed.
 End InfoProofs.
+
+(* ------------------------------------------------------------------------ *)
+(* the metadata-only decode never invokes the template decoder              *)
+(* ------------------------------------------------------------------------ *)
+Definition no_data (ps : list param) : bool := forallb (fun p => negb (is_data p)) ps.
+
+Lemma take_until_data_no_data ps : no_data (take_until_data ps) = true.
+Proof.
+  induction ps as [|p ps IH]; [reflexivity|]. cbn [take_until_data].
+  destruct (is_data p) eqn:E; [reflexivity|]. unfold no_data. cbn [forallb]. rewrite E. exact IH.
+Qed.
+
+Lemma info_configuration_no_data c : no_data (s_params (info_configuration c)) = true.
+Proof.
+  unfold info_configuration. destruct (existsb is_data (s_params c)) eqn:E.
+  - apply take_until_data_no_data.
+  - unfold no_data. apply forallb_forall. intros p Hp. apply negb_true_iff.
+    apply not_true_iff_false. intros Hd. assert (existsb is_data (s_params c) = true) by (apply existsb_exists; eauto). congruence.
+Qed.
+
+Lemma transform_info_no_data ign c : no_data (s_params (transform true ign c)) = true.
+Proof.
+  unfold transform. destruct ign; [|apply info_configuration_no_data].
+  unfold ignore_value_expectation. cbn [s_params]. unfold no_data. rewrite forallb_forall. intros p Hp.
+  apply in_map_iff in Hp as (q & <- & Hq). unfold is_data. cbn [p_type].
+  pose proof (info_configuration_no_data c) as H. unfold no_data in H. rewrite forallb_forall in H. exact (H q Hq).
+Qed.
+
+Lemma decode_params_no_data dd1 dd2 all ps : no_data ps = true -> forall start env props r,
+  decode_params dd1 all ps start env props r = decode_params dd2 all ps start env props r.
+Proof.
+  induction ps as [|p ps IH]; intros Hn start env props r; [reflexivity|].
+  unfold no_data in Hn. cbn [forallb] in Hn. apply andb_true_iff in Hn as [Hp Hn].
+  cbn [decode_params]. unfold is_data in Hp.
+  destruct (p_type p); try discriminate;
+    (match goal with |- bind ?x _ = bind ?x _ => destruct x as [[v r1]|e]; cbn [bind]; [|reflexivity] end;
+     destruct (check_expected p v); cbn [bind]; [apply IH, Hn|reflexivity]).
+Qed.
+
+Lemma decode_section_no_data dd1 dd2 c props r : no_data (s_params c) = true ->
+  decode_section dd1 c props r = decode_section dd2 c props r.
+Proof. intros H. unfold decode_section. rewrite (decode_params_no_data dd1 dd2 _ _ H). reflexivity. Qed.
+
+Lemma configure_info_no_data props i ign c :
+  configure_section definitions props i true ign = Ok (Some c) -> no_data (s_params c) = true.
+Proof.
+  intros H. destruct (configure_index _ _ _ _ _ H) as (_ & c0 & _ & _ & ->). apply transform_info_no_data.
+Qed.
+
+(* C17 info_does_not_interpret_data (1): with info_only the result is the same
+   whatever the template decoder is — it is never called *)
+Theorem info_independent_of_template_decoder : forall dd1 dd2 sig ign s,
+  decode_message dd1 sig true ign s = decode_message dd2 sig true ign s.
+Proof.
+  intros dd1 dd2 sig ign s. unfold decode_message, decode_message_with.
+  destruct (match sig with Some g => _ | None => _ end) as [idx|e]; cbn [bind]; [|reflexivity].
+  assert (H : forall idxs props secs r,
+    decode_sections dd1 definitions true ign idxs props secs r = decode_sections dd2 definitions true ign idxs props secs r).
+  { induction idxs as [|i idxs IH]; intros props secs r; [reflexivity|]. cbn [decode_sections].
+    destruct (configure_section definitions props i true ign) as [[c|]|e] eqn:Ec; cbn [bind]; [|apply IH|reflexivity].
+    rewrite (decode_section_no_data dd1 dd2 c props r (configure_info_no_data _ _ _ _ Ec)).
+    destruct (decode_section dd2 c props r) as [[[sec props1] r1]|e]; cbn [bind]; [|reflexivity].
+    destruct (s_end c); [reflexivity|apply IH]. }
+  rewrite H. reflexivity.
+Qed.
+
+(* (2) the metadata-only decode of section 4 reads its 4-octet header and skips
+   the declared rest: the content bits do not influence the result *)
+Theorem info_skips_data_content : forall dd props h c c' rest sec props' r',
+  length h = 32%nat -> length c = length c' ->
+  decode_section dd info4 props (h ++ c ++ rest) = Ok (sec, props', r') ->
+  exists r'', decode_section dd info4 props (h ++ c' ++ rest) = Ok (sec, props', r'') /\
+              length r'' = length r' /\
+              (length r' <= length rest -> r'' = r').
+Proof.
+  intros dd props h c c' rest sec props' r' Lh Lc. unfold decode_section.
+  cbn [info4 s_params decode_params p_type p_nbits p_name p_prop p_expected].
+  change (24 =? 0)%Z with false. change (8 =? 0)%Z with false. cbv iota.
+  assert (Hh : exists h1 h2, h = h1 ++ h2 /\ length h1 = 24%nat /\ length h2 = 8%nat).
+  { exists (firstn 24 h), (skipn 24 h). rewrite firstn_skipn, firstn_length, skipn_length. split; [reflexivity|lia]. }
+  destruct Hh as (h1 & h2 & -> & L1 & L2). rewrite <- !app_assoc.
+  assert (R1 : forall x, read_typed TUint 24 (h1 ++ x) = Ok (PUint (Z.of_N (of_bits h1)), x)).
+  { intros x. unfold read_typed, read_uint. change (24 <=? 0)%Z with false. cbv iota.
+    change (Z.to_nat 24) with 24%nat. rewrite <- L1, take_bits_app. reflexivity. }
+  assert (R2 : forall x, read_typed TBin 8 (h2 ++ x) = Ok (PBin h2, x)).
+  { intros x. unfold read_typed, read_bin. change (8 <? 0)%Z with false. cbv iota.
+    change (Z.to_nat 8) with 8%nat. rewrite <- L2, take_bits_app. reflexivity. }
+  rewrite !R1. cbn [bind]. unfold add_prop, check_expected. cbn [p_prop p_expected bind].
+  rewrite !R2. cbn [bind].
+  change (has_param Nsection_length [mkP Nsection_length 24 TUint None false; mkP Nreserved_bits 8 TBin None false]) with true.
+  cbv iota. unfold declared_length.
+  change (has_param Nsection_length [mkP Nsection_length 24 TUint None false; mkP Nreserved_bits 8 TBin None false]) with true.
+  cbv iota. cbn [app prop_get]. change (pname_beq Nsection_length Nsection_length) with true. cbv iota. cbn [bind].
+  set (sl := Z.of_N (of_bits h1)).
+  rewrite !app_length, L1, L2.
+  replace (Z.of_nat (24 + (8 + (length c + length rest)) - (length c + length rest))) with 32%Z by lia.
+  replace (Z.of_nat (24 + (8 + (length c' + length rest)) - (length c' + length rest))) with 32%Z by lia.
+  assert (Hrec : forall (a b : nat) i ps v (p : list (pname * pvalue)) (x : reader), a = b ->
+            @Ok (section * list (pname * pvalue) * reader) (mkSec i ps a v, p, x) = Ok (mkSec i ps b v, p, x))
+    by (intros; subst; reflexivity).
+  destruct (Z.ltb_spec 0 (sl * 8 - 32)).
+  - unfold read_bin. destruct (Z.ltb_spec (sl * 8 - 32) 0); [lia|].
+    unfold take_bits. rewrite !app_length, <- Lc.
+    destruct (Nat.ltb_spec (length c + length rest) (Z.to_nat (sl * 8 - 32))); cbn [bind]; [discriminate|].
+    intros E. apply ok_inj in E. injection E as <- <- <-.
+    exists (skipn (Z.to_nat (sl * 8 - 32)) (c' ++ rest)).
+    split; [apply Hrec; rewrite !skipn_length, !app_length, Lc; reflexivity|].
+    rewrite !skipn_length, !app_length, <- Lc. split; [reflexivity|].
+    intros Hle. rewrite !skipn_app. rewrite <- Lc.
+    rewrite (skipn_all2 c) by lia. rewrite (skipn_all2 c') by lia. reflexivity.
+  - destruct (Z.ltb_spec (sl * 8 - 32) 0); cbn [bind]; [discriminate|].
+    intros E. apply ok_inj in E. injection E as <- <- <-.
+    exists (c' ++ rest). split; [apply Hrec; rewrite !app_length, Lc; reflexivity|].
+    rewrite !app_length, <- Lc. split; [reflexivity|]. intros Hle. assert (Hc0 : length c = 0%nat) by lia.
+    destruct c; [|discriminate]. destruct c'; [reflexivity|discriminate].
+Qed.
